@@ -270,6 +270,27 @@ def asm_op(files, roots=1, max_iter=10, opt_s=True, opt_m=True, defs=None):
     return " ".join(parts)
 
 
+def canon_err(m):
+    """bank names are not part of the model's error classes"""
+    if m.startswith("output of bank") or m.startswith("output to non-writable bank") or m.startswith("output out of range for bank"):
+        m = re.sub(r" `[^`]*`", "", m)
+    return m
+
+
+def asm_line(a):
+    """canonical one-line form of an `asm` answer of the oracle, comparable with the model's `asm` answer"""
+    if a.get("panic") is not None or a.get("died") or a.get("not_run"):
+        return "panic"
+    if a.get("output") is not None and not a.get("has_errors"):
+        o = a["output"]
+        spans = ",".join("%s:%d:%s" % ("n" if s["offset"] is None else s["offset"], s["size"], s["addr"]["v"]) for s in o["spans"]) or "-"
+        syms = ",".join("%s=%s:%s" % (s["name"], s["value"]["v"], "-" if s["value"]["size"] is None else s["value"]["size"]) for s in a["symbols"]) or "-"
+        return "ok %s %s iters=%s syms=%s" % (o["bits"] or "-", spans, a["iters"], syms)
+    if a.get("output") is not None and a.get("has_errors"):
+        return "inconsistent: output and errors"
+    return "err " + canon_err(a.get("first_error", "?"))
+
+
 # ---------------------------------------------------------------- known findings
 
 def known_findings(pid):
